@@ -14,7 +14,7 @@ from vfacts import strip, walk, method_name, root_path, is_node, call_obj
 from .prov import var_table
 
 RULE = 'WORKLIST'
-FLOOR = 14
+FLOOR = 18
 EXC_B = {'GetCandidateTree': 'witness construction keeps one rule per newly reached state by design'}
 ENQ = {'push_back', 'push', 'insert', 'emplace_back', 'push_front', 'emplace'}
 PURE = {'std::make_pair', 'std::make_tuple', 'std::move', 'std::forward'}
